@@ -1,0 +1,31 @@
+//go:build verif
+
+// Package verifhook provides yield points used by the external verification harness.
+// It is only active when built with the `verif` build tag.
+package verifhook
+
+import "sync/atomic"
+
+// Handler is called with the name of the site that was reached.
+type Handler func(site string)
+
+var handler atomic.Pointer[Handler]
+
+// Enabled reports whether the hooks are compiled in.
+const Enabled = true
+
+// SetHandler installs (or with nil removes) the handler called at every yield point.
+func SetHandler(h Handler) {
+	if h == nil {
+		handler.Store(nil)
+		return
+	}
+	handler.Store(&h)
+}
+
+// Yield marks a point between two critical sections at which the scheduler may preempt anyway.
+func Yield(site string) {
+	if h := handler.Load(); h != nil {
+		(*h)(site)
+	}
+}
